@@ -40,7 +40,7 @@ ASSUMPTIONS = [
 def C(name, props, **kw):
     d = dict(name=name, props=set(props.split()), targets=[b'a', b'b'], flavour='redo', keep_going=False, top_level=2, pipe0=1,
              others0=0, prior=None, other_locks=None, sub_target=None, shuffle=False, no_do=(), select_budget=0, race=(), deps=(),
-             free_at_try=None, cycles=(), foreign_parent=False, history=(), declares=None, default_do=False, scripts=None)
+             free_at_try=None, cycles=(), foreign_parent=False, history=(), declares=None, default_do=False, scripts=None, succeed=False)
     d.update(kw)
     return d
 
@@ -53,7 +53,7 @@ def configs(thorough):
         C('redo -k a b -j1', 'C05 C07 C09', top_level=1, pipe0=0, keep_going=True),
         C('redo -k a b -j2', 'C05 C07', keep_going=True),
         C('ifchange a b (inherited, 1 token in pipe)', A, flavour='ifchange', top_level=0, pipe0=1),
-        C('ifchange a b (inherited, token held by others)', 'C05 C08 C09', flavour='ifchange', top_level=0, pipe0=0, others0=1),
+        C('ifchange a b (inherited, token held by others)', 'C08 C09', flavour='ifchange', top_level=0, pipe0=0, others0=1),
         C('ifchange a b: a failed earlier in this run', 'C05 C09', flavour='ifchange', top_level=0, pipe0=1, prior={b'a': (FAILED_ROW, None)}),
         C('ifchange -k a b: a failed earlier in this run', 'C05 C09', flavour='ifchange', top_level=0, pipe0=1, keep_going=True,
           prior={b'a': (FAILED_ROW, None)}),
@@ -133,6 +133,15 @@ def configs(thorough):
                    dict(name='nothing changed', expect=[])], **I),
         C('history: ifchange a (a.do: redo-ifchange b); b removed', 'C01', targets=[b'a'], scripts={b'a': [('ifchange', [b'b'])]},
           history=[dict(name='inner target removed', mutate='remove:b', expect=['a', 'b'])], **I),
+        C('history: ifchange a (a.do: redo-ifchange b) and b.do fails; again', 'C05', targets=[b'a'], scripts={b'a': [('ifchange', [b'b'])]},
+          history=[dict(name='inner target failed last time, nothing changed', after_failure=True, only_after_failure=True,
+                        expect=['a', 'b'], result=None)], **I),
+        # the checksum cut-off end to end: a.do: redo-ifchange s; s.do: redo-ifchange src; redo-stamp.  The second and third invocation
+        # go through start_deps_unlocked -> the real redo-unlocked -> two nested redo-ifchange (REDO_NO_OOB / REDO_UNLOCKED)
+        C('history: ifchange a (a -> stamped s -> src); src edited, same checksum; src edited, new checksum', 'C03', targets=[b'a'],
+          prior=SRC, scripts={b'a': [('ifchange', [b's'])], b's': [('ifchange', [b'src']), ('stamp', {10: b'aaaa', 11: b'aaaa', 12: b'bbbb'})]},
+          history=[dict(name='source edited, checksum of s unchanged', mutate='touch:src', expect=['s']),
+                   dict(name='source edited, checksum of s changes', mutate='touch:src', expect=['a', 's'])], succeed=True, **I),
         C('history: ifchange a; a edited by hand; a removed', 'C02', targets=[b'a'],
           history=[dict(name='target edited by hand', mutate='touch:a', expect=[], content={'a': 'edited-by-user'}),
                    dict(name='edited target removed', mutate='remove:a', expect=['a'])], **I),
@@ -204,7 +213,11 @@ def status_class(eng, st):
 
 
 def install(eng):
+    if not hasattr(eng, '_sched_saved_stubs'):
+        eng._sched_saved_stubs = dict(eng.stubs)
+        eng._sched_saved_summaries = dict(eng.summaries)
     schedmodel.install(eng)
+    schedmodel.install_commands(eng)
 
     def probe_start(e, ci, a):
         v = deref_all(a[1])
@@ -212,6 +225,7 @@ def install(eng):
         name = bytes(items).decode('latin-1') if items is not None and all(isinstance(x, int) for x in items) else repr(v)
         e.world.ev('job-start', target=name)
         e.world.pending_target = name
+        e.world.pending_closure = a[2] if len(a) > 2 else None
     eng.probes['JobServerHandle::start'] = probe_start
 
     # a job that is finished the moment it is created (future::ready(rv)): refused / no rule / nothing to do
@@ -247,7 +261,7 @@ def explore(chk, pid, scn=None):
         if only and only != 'sched' and only not in cfg['name']:
             continue
         run_config(chk, pid, cfg)
-    if pid in ('C01', 'C02', 'C14') and scn is not None and not chk.candidates:
+    if pid in ('C01', 'C02', 'C03', 'C14') and scn is not None and not chk.candidates:
         # model validation: the histories' expectations (which scripts run after which user action) against the compiled binaries
         for cfg in CFGS:
             if not cfg['history'] or any(s_.get('only_after_failure') for s_ in cfg['history']):
@@ -279,6 +293,8 @@ def run_config(chk, pid, cfg):
                                          free_at_try=cfg['free_at_try'], cycles=cfg['cycles'], default_do=cfg['default_do'], scripts=cfg['scripts'])
         w.select_budget = cfg['select_budget']
         w.script_declares = cfg['declares']
+        if cfg['succeed']:
+            w.status_values = (0,)          # this history is about successful rebuilds only
         st.update(w=w, hang=None, res=None, r2=None, phase='run', runs=[])
         try:
             res = eng.call('JobServer::block_on', [sref, root], None, None)
@@ -329,7 +345,7 @@ def run_config(chk, pid, cfg):
                'other_locks': {k.decode('latin-1'): v for k, v in (cfg['other_locks'] or {}).items()},
                'variant': 'locked' if cfg['other_locks'] else ('unlocked-job' if cfg['deps'] else (
                    'nojob' if (cfg['no_do'] or cfg['prior']) else 'plain'))}
-        if pid not in ('C12', 'C01', 'C02', 'C13', 'C14'):
+        if pid not in ('C12', 'C01', 'C02', 'C03', 'C13', 'C14'):
             chk.goal('sched: two jobs run at the same time', w.max_running >= 2)
             chk.goal('sched: a job fails', any(v == 'fail' for v in F['status_by_target'].values()))
             chk.goal('sched: run() returns Ok', outcome == 'ok' and val[0] is not None and val[0].var == 'Ok')
@@ -749,9 +765,17 @@ def judge_history(chk, eng, cfg, st, F, outcome, val, wit):
         r = runs[k]
         hi = runs[k + 1]['log_from'] if k + 1 < len(runs) else None
         Fk = facts(eng, w, cfg, r['log_from'], hi)
-        started = sorted(f['target'] for f in Fk['forks'])
+        started = sorted(f['target'] for f in Fk['forks'] if f['kind'] == 'script')
         if any(s == 'fail' for s in Fk['status_by_target'].values()) and r.get('expect_result') == 'Ok':
             return None         # a script failed in a later run: the rest of this history is about successful rebuilds
+        if cfg['history'][k - 1].get('only_after_failure'):
+            # what must be retried: every target whose script failed in the first run, and the targets whose scripts asked for them
+            f0 = F0_status(eng, w, cfg, runs)
+            need = {t for t, sc in f0.items() if sc == 'fail'}
+            for tn, ops in (cfg['scripts'] or {}).items():
+                if any(n.decode() in need for op in ops for n in op[1]):
+                    need.add(tn.decode())
+            r = dict(r, expect=sorted(need))
         wit2 = dict(wit, step=r['step'], started=started, expected=r['expect'])
         if r['expect'] is not None and started != sorted(r['expect']):
             extra = [t for t in started if t not in r['expect']]
@@ -780,7 +804,7 @@ def F0_status(eng, w, cfg, runs):
     return facts(eng, w, cfg, 0, hi)['status_by_target']
 
 
-JUDGES = {'C01': judge_history, 'C02': judge_history, 'C13': judge_history, 'C14': judge_history, 'C12': judge_c12, 'C05': judge_c05, 'C06': judge_c06, 'C07': judge_c07, 'C08': judge_c08, 'C09': judge_c09}
+JUDGES = {'C03': judge_history, 'C01': judge_history, 'C02': judge_history, 'C13': judge_history, 'C14': judge_history, 'C12': judge_c12, 'C05': judge_c05, 'C06': judge_c06, 'C07': judge_c07, 'C08': judge_c08, 'C09': judge_c09}
 
 
 TRACE_DO = 'echo %s >> trace\necho out-%s\n'
@@ -901,7 +925,12 @@ def history_replay(scn, c):
                 for n in op[1]:
                     if n.decode() not in targets:
                         targets.append(n.decode())
-    body = ('echo @T@ >> trace\nif [ -s decl-@T@ ]; then redo-ifchange $(cat decl-@T@); fi\n'
+    stamps = {}
+    for tn, ops in (cfg['scripts'] or {}).items():
+        for op in ops:
+            if op[0] == 'stamp':
+                stamps[tn.decode()] = op[1]
+    body = ('echo @T@ >> trace\nif [ -s decl-@T@ ]; then redo-ifchange $(cat decl-@T@); fi\nif [ -e stamp-@T@ ]; then redo-stamp < stamp-@T@; fi\n'
             'if [ -s declc-@T@ ]; then redo-ifcreate $(cat declc-@T@) || exit 0; fi\nif [ -e always-@T@ ]; then redo-always; fi\necho out-of-@T@\n')
     files = {}
     for t in targets:
@@ -932,7 +961,14 @@ def history_replay(scn, c):
                 out.append('[ -e %s ] || echo "source v1" > %s' % (srcname.decode(), srcname.decode()))
         return '; '.join(out)
     cmd = 'redo-ifchange ' + ' '.join(requested)
-    lines = [decl_cmds(cfg['declares']), ': > trace', cmd + ' >run0.log 2>&1; echo "STEP 0 rc=$? ran=$(sort trace | tr "\\n" " ")"']
+
+    def stamp_cmds(runid):
+        out = []
+        for t, dg in stamps.items():
+            d = dg.get(runid, dg.get('default')) if isinstance(dg, dict) else dg
+            out.append('echo "%s" > stamp-%s' % (d.decode(), t))
+        return '; '.join(out) or ':'
+    lines = [decl_cmds(cfg['declares']), stamp_cmds(R), ': > trace', cmd + ' >run0.log 2>&1; echo "STEP 0 rc=$? ran=$(sort trace | tr "\\n" " ")"']
     for k, step in enumerate(cfg['history']):
         for op in ([step['mutate']] if isinstance(step.get('mutate'), str) else (step.get('mutate') or [])):
             kind, name = op.split(':', 1)
@@ -947,6 +983,7 @@ def history_replay(scn, c):
                 lines.append('rm -f %s' % name)
         if 'declares' in step:
             lines.append(decl_cmds(step['declares']))
+        lines.append(stamp_cmds(R + 1 + k))
         lines.append(': > trace')
         lines.append(cmd + ' >run%d.log 2>&1; echo "STEP %d rc=$? ran=$(sort trace | tr "\\n" " ")"' % (k + 1, k + 1))
     rc, out = scn.run(files, '\n'.join(lines), timeout=180)
@@ -989,3 +1026,10 @@ def make_replay(chk, scn):
 def uninstall(eng):
     """give the engine back to obligations that stub the jobserver hand-over"""
     eng.probes.pop('JobServerHandle::start', None)
+    if hasattr(eng, '_sched_saved_stubs'):
+        eng.stubs.clear()
+        eng.stubs.update(eng._sched_saved_stubs)
+        eng.summaries.clear()
+        eng.summaries.update(eng._sched_saved_summaries)
+        del eng._sched_saved_stubs
+        del eng._sched_saved_summaries
